@@ -167,6 +167,21 @@ func reaches(from, to *ssa.BasicBlock) bool {
 	return walk(from)
 }
 
+// controlEdges: the tests whose outcome decides whether b runs — every If on b's dominator chain one of whose
+// successors is (a single-predecessor block) on the chain.
+func controlEdges(b *ssa.BasicBlock) []*ssa.If {
+	var out []*ssa.If
+	for d := b; d != nil && d.Idom() != nil; d = d.Idom() {
+		id := d.Idom()
+		ifi := blockIf(id)
+		if ifi == nil || len(d.Preds) != 1 || d.Preds[0] != id {
+			continue
+		}
+		out = append(out, ifi)
+	}
+	return out
+}
+
 func firstPos(b *ssa.BasicBlock) token.Pos {
 	for _, in := range b.Instrs {
 		if in.Pos().IsValid() {
